@@ -123,6 +123,17 @@ def run_c07(tier):
         names = ["N%d" % j for j in range(n)]
         edges = sorted((min(a, b), max(a, b), rng.choice([1, 1, 2, 0, 3])) for a, b in g.edges)
         recs.append(write_record(names, edges, tag="random"))
+    # dense graphs: ten and more ring markers open at the same time (%nn markers next to digit markers)
+    for n in ((7, 8) if tier == "quick" else (7, 8, 9, 10)):
+        for rep in range(3 if tier == "quick" else 12):
+            g = nx.complete_graph(n)
+            drop = rng.sample(sorted(g.edges), rng.randint(0, 3) if rep else 0)
+            g.remove_edges_from(drop)
+            if not nx.is_connected(g):
+                continue
+            names = ["N%d" % j for j in range(n)]
+            edges = sorted((min(a, b), max(a, b), rng.choice([1, 1, 1, 2, 0, 3])) for a, b in g.edges)
+            recs.append(write_record(names, edges, tag="dense"))
     slim = [{k: r[k] for k in FIELDS} for r in recs]
     verdicts, stats = tlc.validate("CGGraphTrace", slim)
     check.add_tv(stats)
